@@ -63,8 +63,14 @@ def run(R):
     rb = R.tlc("sys/GuardedAlloc.tla", "MCGuardedAllocBroken.cfg", workers=2, timeout=300)
     if not rb.violated:
         raise vlib.MachineryError("vacuity: wrong page rounding is not rejected by AllLayoutsOK")
-    R.add("states", r.distinct); R.add("transitions", r.generated)
-    R.cov["model"] = {"module": "GuardedAlloc", "cfg": "MCGuardedAlloc.cfg", "distinct": r.distinct, "generated": r.generated, "broken_variants_rejected": 1}
+    ra = R.tlc("sys/AllocArray.tla", "MCAllocArray.cfg", workers=4, timeout=600)
+    if ra.violated:
+        R.violation("AllocArray.tla: the overflow test of sodium_allocarray lets a wrapping product through or refuses a small one: " + ra.tail(30), ra.out, name="model")
+    if not R.tlc("sys/AllocArray.tla", "MCAllocArrayBroken.cfg", workers=2, timeout=300).violated:
+        raise vlib.MachineryError("vacuity: the wrapped-product overflow test is not rejected by NoWrap")
+    R.add("states", r.distinct + ra.distinct); R.add("transitions", r.generated + ra.generated)
+    R.cov["model"] = {"module": "GuardedAlloc", "cfg": "MCGuardedAlloc.cfg", "distinct": r.distinct, "generated": r.generated, "broken_variants_rejected": 2,
+                      "allocarray_model": {"module": "AllocArray", "word_bits": 9, "distinct": ra.distinct}}
     scs, sizes = scenarios(rng, thorough)
     exe = R.cc("alloc_driver", ["alloc_driver.c"], "native")
     nsh = 16
